@@ -179,24 +179,34 @@ def _partial(xs):
 
 # ------------------------------------------------------------------ part B: whole contours
 def gen_alpha(rng):
-    return float(10 ** rng.uniform(-6, math.log10(0.3)))
+    """mostly the property's range [1e-6, 0.3]; some far smaller (1 - alpha next to 1) and some large (small regions,
+    down to the IndexError branch when the densest cell alone exceeds 1 - alpha)"""
+    r = rng.random()
+    if r < 0.8:
+        return float(10 ** rng.uniform(-6, math.log10(0.3)))
+    if r < 0.9:
+        return float(10 ** rng.uniform(-13, -6))
+    return float(rng.choice([0.5, 0.7, 0.9, 0.97]))
 
 
-def gen_grid_case(rng, max_cells, n_dim=None, big=False):
-    n = n_dim or rng.choice([2, 2, 3])
-    desc = M.gen_model_desc(rng, n)
+def gen_grid_case(rng, max_cells, n_dim=None, big=False, desc=None):
+    n = n_dim or rng.choice([2, 2, 2, 3, 3, 4])
+    desc = desc or M.gen_model_desc(rng, n)
     model = M.build_model(desc)
     alpha = gen_alpha(rng)
-    g = M.gen_grid(rng, model, desc, max_cells, alpha=alpha, min_axis=(20 if big else 6))
-    return {"kind": "grid", "desc": desc, "alpha": alpha, "limits": g["limits"], "deltas": g["deltas"]}
+    g = M.gen_grid(rng, model, desc, max_cells, alpha=alpha, min_axis=(20 if big else (5 if len(desc["dims"]) >= 4 else 6)))
+    return {"kind": "grid", "desc": desc, "alpha": alpha, "limits": g["limits"], "deltas": g["deltas"],
+            "lim_form": g["lim_form"], "dl_form": g["dl_form"]}
 
 
 def gen_default_case(rng, what):
     """default limits and / or default deltas (2-D; alpha large enough for the Monte-Carlo default limits)"""
-    desc = M.gen_model_desc(rng, 2)
+    desc = M.gen_model_desc(rng, 3 if what == "limits3" else 2)
     model = M.build_model(desc)
     alpha = float(10 ** rng.uniform(-2.3, math.log10(0.3)))
     g = M.gen_grid(rng, model, desc, 1200, alpha=alpha)
+    if what == "limits3":
+        what = "limits"
     c = {"kind": "grid", "desc": desc, "alpha": alpha, "limits": g["limits"], "deltas": g["deltas"], "np_seed": rng.randrange(2 ** 31)}
     if what in ("limits", "both"):
         c["limits"] = None
@@ -212,7 +222,7 @@ def run_grid(c):
     model = M.build_model(c["desc"])
     if c.get("np_seed") is not None:
         np.random.seed(c["np_seed"])
-    out = M.run_hdc(model, c["alpha"], c["limits"], c["deltas"])
+    out = M.run_hdc(model, c["alpha"], c["limits"], c["deltas"], c.get("lim_form", "tuples"), c.get("dl_form", "asis"))
     out["model"] = model
     return out
 
@@ -253,6 +263,78 @@ def independent_cell_probabilities(model, desc, coords, deltas):
     return P, N
 
 
+def own_grid(c, out):
+    """the grid as the documentation describes it: per dimension the cell centres min, min + delta, ... up to the first
+    value >= max; default limits (0, marginal_icdf(1 - 0.2^n alpha)) with the recorded oracle values, default deltas 0.25 %
+    of the range.  None if the default limits were not recorded."""
+    n = len(c["desc"]["dims"])
+    lims = c["limits"]
+    if lims is None:
+        if len(out.get("micdf", [])) != n:
+            return None
+        lims = [[0.0, m[3]] for m in out["micdf"]]
+    dl = c["deltas"]
+    if dl is None:
+        dl = [(float(l[1]) - float(l[0])) * 0.0025 for l in lims]
+    else:
+        try:
+            dl = [float(v) for v in dl]
+        except TypeError:
+            dl = [float(dl)] * n
+    coords = []
+    for (a, b), d in zip(lims, dl):
+        lo, hi = float(min(a, b)), float(max(a, b))
+        if not d > 0:
+            return None
+        k = int(math.ceil((hi - lo) / d - 1e-9)) + 1
+        if abs((hi + d - lo) / d - round((hi + d - lo) / d)) < 1e-9:      # arange end-point ambiguity: accept either length
+            k = None
+        if k is None:
+            k = len(np.arange(lo, hi + d, d))
+        coords.append(lo + d * np.arange(k))
+    return coords, dl
+
+
+def pdf_crosscheck(model, desc, coords, deltas, P):
+    """cell-averaged density vs. the distributions' POINT pdfs: for sampled cells and every dimension d the CDF difference
+    F_d(x + delta/2 | g) - F_d(x - delta/2 | g) is compared with the Gauss-Legendre integral of pdf_d(. | g) over the cell
+    side, g = the conditioning cell's CENTRE value (the contour conditions on cell centres; the joint point pdf integrated
+    over a coarse cell is a different number and is not what the property states).  Only smooth integrands are judged
+    (5- and 9-node rules agree to 1e-7).  Returns (n compared, worst relative difference, message or None)."""
+    n = len(coords)
+    flat = P.ravel()
+    cand = np.flatnonzero(flat > 1e-3 * flat.max())
+    if len(cand) == 0:
+        return 0, 0.0, None
+    pick = cand[np.linspace(0, len(cand) - 1, min(8, len(cand))).astype(int)]
+    rules = {k: np.polynomial.legendre.leggauss(k) for k in (5, 9)}
+    ncmp, worst, msg = 0, 0.0, None
+    for fidx in pick:
+        idx = np.unravel_index(fidx, P.shape)
+        for d in range(n):
+            dist = model.distributions[d]
+            if not hasattr(dist, "pdf"):
+                continue
+            x, h = float(coords[d][idx[d]]), 0.5 * float(deltas[d])
+            cond = desc["dims"][d].get("cond")
+            kw = {} if cond is None else {"given": float(coords[cond][idx[cond]])}
+            with np.errstate(all="ignore"):
+                dF = float(np.asarray(dist.cdf(np.array([x + h]), **kw))[0] - np.asarray(dist.cdf(np.array([x - h]), **kw))[0])
+                q = {}
+                for k, (xs, ws) in rules.items():
+                    q[k] = float((np.asarray(dist.pdf(x + h * xs, **kw), dtype=float) * ws).sum() * h)
+            if not np.isfinite(q[9]) or q[9] <= 1e-12 or abs(q[9] - q[5]) > 1e-7 * q[9]:
+                continue
+            ncmp += 1
+            rel = abs(dF - q[9]) / q[9]
+            if rel > worst:
+                worst = rel
+                if rel > 1e-5:
+                    msg = "dimension %d, cell %r: CDF difference %r, integral of the distribution's pdf over the cell %r" % (
+                        d, tuple(int(v) for v in idx), dF, q[9])
+    return ncmp, worst, msg
+
+
 def oracle_grid(c, out=None, notes=None):
     """property oracle on one real contour.  None = holds, "unjudgeable", or (signature, message)."""
     out = out or run_grid(c)
@@ -260,12 +342,41 @@ def oracle_grid(c, out=None, notes=None):
     n = len(desc["dims"])
     sig0 = {"site": "HighestDensityContour", "n_dim": n}
     if "err" in out:
-        if out["err"] == "IndexError":
-            return None       # L14: densest cell alone > 1-alpha (outside the property's grids)
         if out["err"] == "ValueError" and "n_neighbors" in out.get("err_msg", ""):
             return "unjudgeable"   # fewer than 3 boundary cells: sklearn rejects the point set (line sorter, C15)
+        if out["err"] in ("IndexError", "ValueError"):
+            # L14 / nan branch: legitimate only when the densest cell alone exceeds 1-alpha / a cell probability is nan
+            g = own_grid(c, out)
+            if g is None:
+                return "unjudgeable"
+            coords0, deltas0 = g
+            if any(len(cc) < 2 for cc in coords0):
+                return None
+            with np.errstate(all="ignore"):
+                P0, _ = independent_cell_probabilities(out["model"], desc, coords0, deltas0)
+            if out["err"] == "ValueError" and "nan" in out.get("err_msg", ""):
+                if np.isnan(P0).any():
+                    return None
+                return (dict(sig0, clause="unexpected-exception"), "ValueError (nan) although no cell probability is nan")
+            if out["err"] == "IndexError":
+                if np.isnan(P0).any():
+                    return "unjudgeable"
+                lim0 = 1 - c["alpha"]
+                if float(P0.max()) > lim0 * (1 - 1e-9):
+                    return None
+                return (dict(sig0, clause="unexpected-exception"),
+                        "IndexError although the densest cell (%r) does not exceed 1-alpha = %r" % (float(P0.max()), lim0))
         return (dict(sig0, clause="unexpected-exception"), "HighestDensityContour raised %s: %s" % (out["err"], out.get("err_msg", "")))
     cont = out["contour"]
+    g = own_grid(c, out)
+    if g is not None:
+        for d, (want, got) in enumerate(zip(g[0], cont.cell_center_coordinates)):
+            got = np.asarray(got, dtype=float)
+            if len(want) != len(got) or np.abs(got - want).max() > 1e-9 * max(1.0, float(np.abs(want).max())):
+                return (dict(sig0, clause="grid"), "axis %d: cell centres %r... (%d) are not min + k*delta up to max (%r..., %d)" % (
+                    d, [float(v) for v in got[:3]], len(got), [float(v) for v in want[:3]], len(want)))
+        if [float(v) for v in cont.deltas] != [float(v) for v in g[1]]:
+            return (dict(sig0, clause="grid"), "deltas %r, expected %r" % (list(cont.deltas), g[1]))
     coords = cont.cell_center_coordinates
     deltas = [float(d) for d in cont.deltas]
     if any(len(cc) < 2 for cc in coords):
@@ -287,6 +398,13 @@ def oracle_grid(c, out=None, notes=None):
         k = tuple(int(v) for v in np.argwhere(bad)[0])
         return (dict(sig0, clause="cell-probabilities"),
                 "cell %r: cell_averaged_joint_pdf*prod(deltas) = %r, product of CDF differences = %r" % (k, float(f_impl[k] * vol), float(P[k])))
+    if desc.get("table") is None and not any(dd.get("family") == "mixture" for dd in desc["dims"]):
+        ncmp, worst, msg = pdf_crosscheck(out["model"], desc, [np.asarray(cc, dtype=float) for cc in coords], deltas, P)
+        if notes is not None:
+            notes["pdf_crosscheck_cells"] = notes.get("pdf_crosscheck_cells", 0) + ncmp
+            notes["pdf_crosscheck_worst_rel"] = max(notes.get("pdf_crosscheck_worst_rel", 0.0), worst)
+        if msg:
+            return (dict(sig0, clause="cell-average-vs-pdf"), msg)
     tot = float(P.sum())
     near = abs(tot - lim) <= 1e-10
     fm = float(cont.fm)
@@ -410,12 +528,33 @@ def run(ctx):
         c = gen_grid_case(rng, max_cells)
         cases_b.append(c)
         outs_b.append(run_grid(c))
-    for what in ["limits", "limits", "deltas", "both"][: ctx.n(3, 4)]:
+    for what in ["limits", "limits3", "deltas", "both"]:
         c = gen_default_case(rng, what)
         cases_b.append(c)
         outs_b.append(run_grid(c))
+    # every predefined model structure, fitted to its shipped dataset (the fitted objects are the real classes)
+    for name in sorted(M.PREDEFINED):
+        for rep in range(ctx.n(1, 4)):
+            c = gen_grid_case(rng, max_cells, desc=M.predefined_desc(name))
+            cases_b.append(c)
+            outs_b.append(run_grid(c))
+    # 4-D models on small grids, the error branches (alpha near 1: IndexError; nan in the joint pdf: ValueError)
+    for rep in range(ctx.n(3, 20)):
+        c = gen_grid_case(rng, max_cells, n_dim=4)
+        cases_b.append(c)
+        outs_b.append(run_grid(c))
+    for rep in range(ctx.n(3, 20)):
+        c = gen_grid_case(rng, max_cells, n_dim=rng.choice([2, 3]))
+        c["alpha"] = rng.choice([0.9, 0.99, 0.999999, 1.0])
+        cases_b.append(c)
+        outs_b.append(run_grid(c))
+    c = gen_grid_case(rng, max_cells, desc=M.predefined_desc("get_Windmeier_EW_Hs_S"))
+    c["limits"] = [[0.0, l[1]] for l in c["limits"]]          # dependence functions undefined at hs = 0: nan -> ValueError
+    cases_b.append(c)
+    outs_b.append(run_grid(c))
     gshard = 4
     coq_b = []        # indices of cases that go through Coq
+    coq_err = []      # error branches: the model must take the same branch
     for i, (c, o) in enumerate(zip(cases_b, outs_b)):
         key = "grid/%dd/%s%s" % (len(c["desc"]["dims"]), o.get("err", "ok"), "+warn" if o.get("warned") else "")
         if c["limits"] is None:
@@ -425,14 +564,28 @@ def run(ctx):
         dist[key] = dist.get(key, 0) + 1
         nt = "contour" in o and not o["warned"]
         ctx.count(("grid", repr(c["desc"]), c["alpha"], repr(c["limits"]), repr(c["deltas"])), nt)
+        if c["desc"].get("predefined"):
+            dist["predefined/" + c["desc"]["predefined"]] = dist.get("predefined/" + c["desc"]["predefined"], 0) + 1
+        fk = "forms/limits:%s deltas:%s" % (c.get("lim_form", "tuples") if c["limits"] is not None else "None",
+                                            c.get("dl_form", "asis") if c["deltas"] is not None else "None")
+        dist[fk] = dist.get(fk, 0) + 1
         if "contour" in o and o["f"].size <= 3000:
             coq_b.append(i)
+        elif o.get("err") in ("IndexError", "ValueError") and "n_neighbors" not in o.get("err_msg", "") and o["calls_compute"]:
+            coq_err.append(i)
     for s in range(0, len(coq_b), gshard):
         body = M.GRID_PRELUDE
         for k, i in enumerate(coq_b[s:s + gshard]):
             c, o = cases_b[i], outs_b[i]
             body += M.coq_grid_case(k, c["desc"], c["alpha"], c["limits"], c["deltas"], o)
         items.append(("grid_%d" % (s // gshard), body))
+    n_grid_items = len(items)
+    for s in range(0, len(coq_err), gshard):
+        body = M.GRID_PRELUDE
+        for k, i in enumerate(coq_err[s:s + gshard]):
+            c, o = cases_b[i], outs_b[i]
+            body += M.coq_grid_error_case(k, c["desc"], c["alpha"], c["limits"], c["deltas"], o)
+        items.append(("griderr_%d" % (s // gshard), body))
     outs = ctx.coq_eval_many(items, jobs=12)
     # ---- evaluate A
     na_cmp, mism_a = 0, []
@@ -455,7 +608,7 @@ def run(ctx):
     # ---- evaluate B
     nb_cmp, bitexact, ncells, mism_b = 0, 0, 0, []
     fields = ["cell_center_coordinates", "shape of the joint pdf", None, "cell_averaged_joint_pdf", "enclosed region (HDR)", None, "fm", "RuntimeWarning"]
-    for k in range(n_ashards, len(outs)):
+    for k in range(n_ashards, n_grid_items):
         o = outs[k]
         if o is None:
             continue
@@ -482,6 +635,24 @@ def run(ctx):
             if badf:
                 mism_b.append(i)
                 ctx.mismatch("contour case %d" % i, "%s differ: %r" % (", ".join(badf), {k2: cases_b[i][k2] for k2 in ("desc", "alpha", "limits", "deltas")}))
+    n_err_cmp, n_err_bad = 0, 0
+    for k in range(n_grid_items, len(outs)):
+        o = outs[k]
+        if o is None:
+            continue
+        s0 = (k - n_grid_items) * gshard
+        for j, rtxt in enumerate(o):
+            i = coq_err[s0 + j]
+            kind, ncell = vlib.parse_term(rtxt)
+            want = 2 if outs_b[i]["err"] == "IndexError" else 1
+            g = own_grid(cases_b[i], outs_b[i])
+            wantcells = int(np.prod([len(x) for x in g[0]])) if g else ncell
+            n_err_cmp += 1
+            if kind != want or ncell != wantcells:
+                n_err_bad += 1
+                mism_b.append(i)
+                ctx.mismatch("contour error case %d" % i, "implementation raised %s, model branch %d (0 ok, 1 nan, 2 IndexError), %d cells (expected %d): %r" % (
+                    outs_b[i]["err"], kind, ncell, wantcells, {k2: cases_b[i][k2] for k2 in ("desc", "alpha", "limits", "deltas")}))
     # default-limit cases: the probability handed to marginal_icdf (checked here, the returned values are oracle values)
     for c, o in zip(cases_b, outs_b):
         if c["limits"] is None and "contour" in o:
@@ -493,7 +664,8 @@ def run(ctx):
     ctx.cov["programs"] = 2
     ctx.notes["correspondence"] = {"cumsum_biggest_until_cases": na_cmp, "cbu_mismatches": len(mism_a),
                                    "contours_compared": nb_cmp, "contour_mismatches": len(mism_b),
-                                   "joint_pdf_cells_compared": ncells, "joint_pdf_cells_bit_exact": bitexact}
+                                   "joint_pdf_cells_compared": ncells, "joint_pdf_cells_bit_exact": bitexact,
+                                   "error_branches_compared": n_err_cmp, "error_branch_mismatches": n_err_bad}
     # ---------------- search: property oracle, disagreeing inputs first
     found, unjudge = 0, 0
     for c in suspects + cases_a:
